@@ -57,6 +57,7 @@ func writeEvidence(prop, tier string, seed int64, spec *Spec, results []*runResu
 		ri["cover_points"] = rep.Covers
 		ri["assumes_executed"] = rep.Assumes
 		ri["interpreted_ssa_instructions"] = rep.Steps
+		ri["cross_solver"] = map[string]int{"queries_rechecked_by_z3new_and_cvc5": rep.CrossChecked, "agreed": rep.CrossAgreed, "undecided_by_the_other_solver": rep.CrossUndecided}
 		ri["native_cases_validated"] = r.validated
 		ri["native_mismatches"] = r.mismatches
 		ri["inconclusive"] = rep.Inconclusive
